@@ -767,3 +767,65 @@ def _basic_index(sl):
             continue
         return False
     return True
+
+
+def rule_putmask1(ctx, rels):
+    r = ctx.r
+    r.rule("PUTMASK1", "np.putmask(a, mask, values) takes `values[n % "
+                       "len(values)]` for the FLAT position n of a -- it "
+                       "does not hand out one value per True like np.place "
+                       "or `a[mask] = values`. Its `values` therefore has "
+                       "the shape of `a` (or is a scalar): values computed "
+                       "on the masked selection (`f(x[mask])`) land on the "
+                       "wrong members of a composite as soon as a False "
+                       "precedes a True")
+    n = 0
+    for rel in rels:
+        mod = ctx.p.module_by_rel(rel)
+        for f in ctx.p.all_functions:
+            if f.module is not mod:
+                continue
+            defs = None
+            for c in ast.walk(f.node):
+                if not (isinstance(c, ast.Call)
+                        and dotted(c.func) in ("np.putmask", "numpy.putmask")
+                        and len(c.args) >= 3):
+                    continue
+                n += 1
+                r.analysed(f)
+                if defs is None:
+                    defs = single_defs(f.node)
+                mask = c.args[1]
+                mask_txt = dotted(mask)
+
+                def selected(e, depth=0):
+                    for x in ast.walk(e):
+                        if isinstance(x, ast.Subscript):
+                            idx = x.slice.elts if isinstance(
+                                x.slice, ast.Tuple) else [x.slice]
+                            if any(dotted(i) == mask_txt for i in idx):
+                                return x
+                        if isinstance(x, ast.Name) and x.id in defs \
+                                and depth < 5:
+                            hit = selected(defs[x.id], depth + 1)
+                            if hit is not None:
+                                return hit
+                    return None
+                hit = selected(c.args[2])
+                inst = f"{f.qualname}:putmask@{c.lineno}"
+                if hit is None:
+                    r.ok("PUTMASK1", inst, loc(f, c), dotted(c)[:80],
+                         "values are not computed on the masked selection")
+                else:
+                    r.violation(
+                        "PUTMASK1", f"{f.fq}|{mask_txt}", loc(f, c),
+                        dotted(c)[:100],
+                        f"the values of this np.putmask are computed from "
+                        f"`{dotted(hit)[:50]}`, i.e. only for the members "
+                        f"selected by `{mask_txt}`; putmask indexes them by "
+                        "flat position modulo their number, so in a "
+                        "composite [far, near1, far, near2] near1 receives "
+                        "the value of near2 (use `a[mask] = values` or "
+                        "np.place)", instance=f"{f.qualname}:putmask")
+    if n == 0:
+        r.ok("PUTMASK1", "modules", ",".join(rels), "", "no np.putmask call")
